@@ -168,7 +168,7 @@ CHECKS = {
         technique="Lean 4 simulation (both directions) between the task.c model and an independent life-cycle spec + differential runs",
         design="DESIGN.md §5 C07"),
     "C08": dict(
-        text=("Theorems (Props/C08.lean, 21) over the transcription of chan_push/chan_pop/chan_flush: a history of enter/leave "
+        text=("Theorems (Props/C08.lean, 22) over the transcription of chan_push/chan_pop/chan_flush: a history of enter/leave "
               "events on a channel is accepted by the channel machinery IFF it is properly nested (leave matches the "
               "innermost open region, depth <= limit, and without ALLOW_DUP no re-entry of the innermost region) "
               "(nesting_accept_iff, unbounded length, any depth limit); hence every properly nested non-re-entering history "
@@ -177,10 +177,12 @@ CHECKS = {
               "(lint_open_rejected, finish_ok_iff). Whole-table `decide` facts over the tables REGENERATED from /repo each run: "
               "every enter has a leave with the same channel and value, distinct regions of a channel have distinct values, "
               "every value has a PCF label, actions/channel types are consistent, and the tables still equal the committed "
-              "documented mapping event->(channel, action, value, label) (table_matches_documented). Tie: regenerated tables; "
+              "documented mapping event->(channel, action, value, label) (table_matches_documented) and the tracking modes of every "
+              "model channel (thread row shows the value always / while running / while active; CPU row = running thread) still "
+              "equal the committed documented modes (track_modes_match_documented, Spec/TrackModes.lean). Tie: regenerated tables; "
               "e2e: per model random nested words with single mismatches, wrong thread states, open regions at the end and "
               "depths 511..513, real ovniemu -l vs the Lean reference emulator (verdict, failing event, every model row) and "
-              "vs an independent Python oracle that recomputes every row from the history with the documented mapping."),
+              "vs an independent Python oracle that recomputes every row from the history with the documented mapping and the documented tracking modes."),
         note=TB + "; thread-state preconditions and the per-model dispatch are hand-modelled in Emu/Core.lean and tied by the "
              "e2e correspondence; the kernel model's two events are a hand-written table",
         technique="Lean 4 iff theorem over the channel stack model + whole-table decide over regenerated tables + differential ovniemu runs",
@@ -269,7 +271,7 @@ CHECKS = {
         technique="Lean 4 theorems over a byte-level cursor with adversarial out-of-file memory + single-corruption differential runs",
         design="DESIGN.md §5 C12"),
     "C13": dict(
-        text=("Theorems (Props/C13.lean + Props/C13Text.lean, 36) over the Paraver writer model (prv_advance guard, lines written at the current "
+        text=("Theorems (Props/C13.lean + Props/C13Text.lean, 42) over the Paraver writer model (prv_advance guard, lines written at the current "
               "time, header rewritten at close) and the record generation of the reference emulator: for every accepted "
               "sequence of steps the lines are in non-decreasing time order, none is later than the header duration, which is "
               "the clock of the last step (prv_times_monotone), a backwards step is refused; every record belongs to the row "
@@ -287,12 +289,19 @@ CHECKS = {
               "header_rewrite_same_length_iff (exact bound -10^19 < d < 10^20, every int64 inside, corruption beyond by decide), "
               "files_wellformed: for every accepted history the .prv TEXT parses, duration = last clock, times non-decreasing "
               "and <= duration, rows within 1..nrows, every type declared by the .pcf TEXT, .row reads back one name per row in "
-              "gindex order. Tie: the six files BYTE FOR BYTE (no canonicalisation, same-timestamp order included) on every "
+              "gindex order; the .pcf TEXT reads back (pcf_roundtrip: an independent reader of the EVENT_TYPE blocks returns exactly the types, labels and "
+              "value lines for every PCF whose labels contain no newline - three decide counterexamples show each conjunct is needed; "
+              "pcfText_injective; emu_pcf_roundtrip for the PCFs the emulator builds) and the labelling holds on the TEXT "
+              "(pcf_values_labelled_text: the six thread-state codes under the thread-state type, gindex+1 of every CPU under the "
+              "affinity type, every table label of every enabled model under its type; init_values_labelled_text). "
+              "Tie: the six files BYTE FOR BYTE (no canonicalisation, same-timestamp order included) on every "
               "accepted mixed/wide/mark trace (task-type traces: .pcf/.row only; -b traces: self-check only). Found and "
-              "repaired: cpu.pcf did not declare CPU types 1,2,3."),
-        note=TB + "; thread-name strings and the type names of thread.c/cpu.c are hard-coded in PvText (the byte tie catches any drift); "
+              "repaired: cpu.pcf did not declare CPU types 1,2,3. The Lean reader's parse of the model's .pcf text is also compared "
+              "with the Python reader's parse of ovniemu's .pcf; traces with MPI ranks (worlds of the C15 generator) go through the "
+              "self-check with the expected row order."),
+        note=TB + "; metadata labels (mark titles/labels, task-type labels) are assumed newline-free in the text theorems (NamesWf; ovniemu does not check it); thread-name strings and the type names of thread.c/cpu.c are hard-coded in PvText (the byte tie catches any drift); "
              ".prv text of task-event traces and breakdown files are outside the text model",
-        technique="Lean 4 invariant proof over the PRV writer + record typing lemma + independent parsers on ovniemu output",
+        technique="Lean 4 invariant proof over the PRV writer + printf-exact text model with reader round trips + record typing lemma + independent parsers on ovniemu output",
         design="DESIGN.md §5 C13"),
     "C14": dict(
         text=("Theorems (Props/C14.lean, 22): compatibility iff same major and minor<=; well-formed a.b.c[-suffix] "
